@@ -23,7 +23,7 @@ PLAN = {"quick": {"shards": 16, "cases": 480, "timeout": 900}, "thorough": {"sha
 FLOORS = {"quick": {"distinct_nontrivial": 60, "names_judged": 3000, "proper_rank_subsets": 25, "self_comparisons": 25, "short_name_calls": 60, "identical_labels": 60, "ops_diff_called_first": 80, "fractional_duration_rows": 100,
                     "cases_with_a_name_under_two_categories": 60, "tables_after_a_table_in_the_other_naming_mode": 100,
                     "class_added": 200, "class_deleted": 200, "class_increased": 100, "class_decreased": 100, "class_unchanged": 500},
-          "thorough": {"distinct_nontrivial": 1200, "names_judged": 100000, "proper_rank_subsets": 500, "self_comparisons": 800, "short_name_calls": 1200, "identical_labels": 1000, "ops_diff_called_first": 1400, "fractional_duration_rows": 2000,
+          "thorough": {"distinct_nontrivial": 1200, "names_judged": 100000, "proper_rank_subsets": 500, "self_comparisons": 500, "short_name_calls": 1200, "identical_labels": 1000, "ops_diff_called_first": 1400, "fractional_duration_rows": 2000,
                        "cases_with_a_name_under_two_categories": 1000, "tables_after_a_table_in_the_other_naming_mode": 2000,
                        "class_added": 4000, "class_deleted": 4000, "class_increased": 2000, "class_decreased": 2000, "class_unchanged": 10000}}
 
